@@ -3,10 +3,35 @@ package main
 import (
 	"encoding/json"
 	"fmt"
+	"go/types"
+	"math/big"
 	"os"
+	"os/exec"
 	"path/filepath"
+	"regexp"
+	"sort"
 	"strings"
+	"time"
 )
+
+// Replay of counterexamples on the real code (DESIGN §3.8).
+//
+// For a failed obligation of a function under contract the unit is generated
+// once more with the arithmetic definitions (theory "defined", so that the
+// model is arithmetically consistent), the query is bounded to small storage,
+// and the model's shapes and scalars are turned into an in-package Go test
+// injected with `go test -overlay` (nothing is written into the repository).
+// The test builds the pre-state directly (one backing array per element type,
+// buffers as windows of it), calls the real function under recover and
+// reports what happened; the verdict compares that with what the contract
+// clause demands.
+
+type replayInput struct {
+	Name string                 `json:"name"`
+	Kind string                 `json:"kind"`
+	Type string                 `json:"type"`
+	Val  map[string]interface{} `json:"val"`
+}
 
 // writeReplay writes the replay file for a group of failed obligations (same
 // function and label, different instantiations). Returns the path and whether
@@ -14,6 +39,7 @@ import (
 func writeReplay(s *Session, prop string, os_ []*Obligation) (string, bool) {
 	o := os_[0]
 	name := prop + "-" + sanitize(strings.ReplaceAll(o.Fn+"_"+labelOf(o.Name), ":", "_")) + ".json"
+	name = strings.NewReplacer("#", "_", "@", "_", "!", "_").Replace(name)
 	path := filepath.Join("/verif/replays", name)
 	var insts []string
 	for _, x := range os_ {
@@ -27,15 +53,39 @@ func writeReplay(s *Session, prop string, os_ []*Obligation) (string, bool) {
 		"instantiations": insts,
 		"solver_status":  o.Res.Status,
 		"solver_backend": o.Res.Backend,
-		"solver_output":  truncate(o.Res.Raw, 20000),
+		"solver_output":  truncate(o.Res.Raw, 8000),
 		"model":          o.Res.Model,
 		"note":           o.Note,
 		"smt_sha":        hashText(o.Txt),
+		"repo":           repoDir,
 	}
 	if o.Goal != nil {
 		rec["goal"] = truncate(o.Goal.String(), 4000)
 	}
 	confirmed := false
+	func() {
+		defer func() {
+			if r := recover(); r != nil {
+				rec["replay_error"] = fmt.Sprint(r)
+			}
+		}()
+		// try the failing instantiations in order until one replays
+		for i, x := range os_ {
+			if i >= 3 {
+				break
+			}
+			ok, det := s.replayObligation(prop, x)
+			if det != nil {
+				rec["replay"] = det
+			}
+			if ok {
+				confirmed = true
+				rec["obligation"] = x.Name
+				break
+			}
+		}
+	}()
+	rec["confirmed_on_real_code"] = confirmed
 	b, _ := json.MarshalIndent(rec, "", " ")
 	os.WriteFile(path, b, 0o644)
 	if o.Txt != "" {
@@ -57,6 +107,731 @@ func cmdReplay(path string) int {
 		fmt.Fprintln(os.Stderr, err)
 		return 2
 	}
-	fmt.Println(string(b))
+	var rec map[string]interface{}
+	if err := json.Unmarshal(b, &rec); err != nil {
+		fmt.Fprintln(os.Stderr, err)
+		return 2
+	}
+	fmt.Printf("property   : %v\nobligation : %v\nsolver     : %v (%v)\nconfirmed  : %v\n", rec["property"], rec["obligation"], rec["solver_status"], rec["solver_backend"], rec["confirmed_on_real_code"])
+	rp, _ := rec["replay"].(map[string]interface{})
+	if rp == nil {
+		fmt.Println("no replayable input was derived; see solver_output in the file")
+		return 0
+	}
+	src, _ := rp["test_source"].(string)
+	if src == "" {
+		fmt.Println("no test source recorded")
+		return 0
+	}
+	out, err := runOverlayTest(src, fmt.Sprint(rp["test_name"]))
+	fmt.Println(out)
+	if err != nil {
+		fmt.Println("replay run:", err)
+	}
+	if strings.Contains(out, "REPLAY-CONFIRMED") {
+		return 1
+	}
 	return 0
 }
+
+// runOverlayTest injects an in-package test file and runs it.
+func runOverlayTest(src, testName string) (string, error) {
+	dir, err := os.MkdirTemp("/var/tmp", "sigverif-replay-")
+	if err != nil {
+		return "", err
+	}
+	defer os.RemoveAll(dir)
+	tf := filepath.Join(dir, "zz_verif_replay_test.go")
+	os.WriteFile(tf, []byte(src), 0o644)
+	ov := map[string]map[string]string{"Replace": {filepath.Join(repoDir, "zz_verif_replay_test.go"): tf}}
+	ob, _ := json.Marshal(ov)
+	ovf := filepath.Join(dir, "overlay.json")
+	os.WriteFile(ovf, ob, 0o644)
+	cmd := exec.Command("go", "test", "-overlay", ovf, "-vet=off", "-count=1", "-timeout", "60s", "-run", "^"+testName+"$", "-v", ".")
+	cmd.Dir = repoDir
+	cmd.Env = append(os.Environ(), "GOFLAGS=-mod=mod", "GOPROXY=off", "GOSUMDB=off", "GOTOOLCHAIN=local")
+	done := make(chan struct{})
+	var out []byte
+	go func() {
+		out, err = cmd.CombinedOutput()
+		close(done)
+	}()
+	select {
+	case <-done:
+	case <-time.After(120 * time.Second):
+		if cmd.Process != nil {
+			cmd.Process.Kill()
+		}
+		<-done
+	}
+	return string(out), err
+}
+
+// ---- model values -------------------------------------------------------------------------
+
+var reGetValue = regexp.MustCompile(`(?s)^\(\((.*)\)\)$`)
+
+// evalTerms asks the solver for the values of terms in a model of the query.
+func evalTerms(script string, terms []*Term, budgetS int) (map[string]string, string) {
+	var sb strings.Builder
+	body := strings.Replace(script, "(get-model)\n", "", 1)
+	sb.WriteString(body)
+	for _, t := range terms {
+		sb.WriteString("(get-value (" + t.String() + "))\n")
+	}
+	file := filepath.Join(workDir, "replay-"+hashText(sb.String())+".smt2")
+	os.WriteFile(file, []byte(sb.String()), 0o644)
+	cmd := exec.Command("z3-new", fmt.Sprintf("-T:%d", budgetS), file)
+	out, _ := cmd.CombinedOutput()
+	lines := strings.Split(strings.TrimSpace(string(out)), "\n")
+	if len(lines) == 0 || strings.TrimSpace(lines[0]) != "sat" {
+		return nil, strings.TrimSpace(lines[0])
+	}
+	// parse successive ((term value)) answers
+	rest := strings.Join(lines[1:], "\n")
+	vals := map[string]string{}
+	pos := 0
+	for _, t := range terms {
+		for pos < len(rest) && rest[pos] != '(' {
+			pos++
+		}
+		end := skipSexp(rest, pos)
+		if end < 0 {
+			break
+		}
+		ans := rest[pos:end]
+		pos = end
+		// ans = ((term value)): strip the two leading parens, skip the term sexp
+		inner := strings.TrimSpace(ans[1 : len(ans)-1])
+		inner = strings.TrimSpace(inner[1 : len(inner)-1])
+		p := skipSexp(inner, 0)
+		if p < 0 {
+			continue
+		}
+		vals[t.String()] = strings.Join(strings.Fields(inner[p:]), " ")
+	}
+	return vals, "sat"
+}
+
+func parseSMTInt(v string) (*big.Int, bool) {
+	v = strings.TrimSpace(v)
+	neg := false
+	if strings.HasPrefix(v, "(-") {
+		neg = true
+		v = strings.TrimSpace(strings.TrimSuffix(strings.TrimPrefix(v, "(-"), ")"))
+	}
+	n, ok := new(big.Int).SetString(v, 10)
+	if !ok {
+		return nil, false
+	}
+	if neg {
+		n.Neg(n)
+	}
+	return n, true
+}
+
+func parseSMTBV(v string) (*big.Int, int, bool) {
+	v = strings.TrimSpace(v)
+	switch {
+	case strings.HasPrefix(v, "#x"):
+		n, ok := new(big.Int).SetString(v[2:], 16)
+		return n, 4 * len(v[2:]), ok
+	case strings.HasPrefix(v, "#b"):
+		n, ok := new(big.Int).SetString(v[2:], 2)
+		return n, len(v[2:]), ok
+	case strings.HasPrefix(v, "(_ bv"):
+		var s string
+		var w int
+		if _, err := fmt.Sscanf(v, "(_ bv%s %d)", &s, &w); err == nil {
+			n, ok := new(big.Int).SetString(s, 10)
+			return n, w, ok
+		}
+	}
+	return nil, 0, false
+}
+
+// fpBits turns an SMT FP value into the IEEE bit pattern.
+func fpBits(v string) (uint64, int, bool) {
+	v = strings.TrimSpace(v)
+	if strings.HasPrefix(v, "(fp ") {
+		f := strings.Fields(strings.TrimSuffix(strings.TrimPrefix(v, "(fp "), ")"))
+		if len(f) != 3 {
+			return 0, 0, false
+		}
+		var bits string
+		for _, p := range f {
+			n, w, ok := parseSMTBV(p)
+			if !ok {
+				return 0, 0, false
+			}
+			bits += fmt.Sprintf("%0*b", w, n)
+		}
+		n, _ := new(big.Int).SetString(bits, 2)
+		return n.Uint64(), len(bits), true
+	}
+	m := regexp.MustCompile(`^\(_ (\+zero|-zero|\+oo|-oo|NaN) (\d+) (\d+)\)$`).FindStringSubmatch(v)
+	if m != nil {
+		var eb, sb int
+		fmt.Sscan(m[2], &eb)
+		fmt.Sscan(m[3], &sb)
+		w := eb + sb
+		switch m[1] {
+		case "+zero":
+			return 0, w, true
+		case "-zero":
+			return 1 << uint(w-1), w, true
+		case "+oo":
+			return ((1 << uint(eb)) - 1) << uint(sb-1), w, true
+		case "-oo":
+			return (1 << uint(w-1)) | (((1 << uint(eb)) - 1) << uint(sb-1)), w, true
+		case "NaN":
+			return (((1 << uint(eb)) - 1) << uint(sb-1)) | 1, w, true
+		}
+	}
+	return 0, 0, false
+}
+
+// ---- replay of one obligation ----------------------------------------------------------------
+
+func goTypeName(t types.Type) string { return typeName(t) }
+
+// replayObligation returns (confirmed, details).
+func (s *Session) replayObligation(prop string, o *Obligation) (bool, map[string]interface{}) {
+	if o.Bounded {
+		return o.Res != nil && o.Res.Status == "sat", map[string]interface{}{"bounded": true, "examples": o.Res.Model,
+			"note": "failing inputs found by exhaustive native execution of the real functions"}
+	}
+	if o.Kind == "lemma" {
+		return s.replayLemma(prop, o)
+	}
+	fi := s.prog.Funcs[o.Fn]
+	ct := s.cf.Funcs[o.Fn]
+	if fi == nil || ct == nil {
+		return false, nil
+	}
+	// regenerate the unit with arithmetic definitions
+	var inst *Inst
+	for _, in := range s.instsFor(fi, ct) {
+		if in.Name == o.InstName {
+			inst = in
+		}
+	}
+	if inst == nil {
+		return false, nil
+	}
+	u := newUnit(s.prog, s.cf, fi, ct, inst, ct.Mode)
+	u.theory = "defined"
+	if strings.Contains(o.Name, "/pool-miss:") {
+		u.poolCase = "miss"
+	} else {
+		u.poolCase = "hit"
+	}
+	for _, v := range ct.Variants {
+		if strings.HasSuffix(o.Name, "@"+v.Label) {
+			u.variant = v
+		}
+	}
+	func() {
+		defer func() { recover() }()
+		u.verifyFunc()
+	}()
+	u.finish()
+	want := o.Name
+	if i := strings.Index(want, "/pool-"); i >= 0 {
+		j := strings.Index(want[i+1:], ":")
+		want = want[:i] + "/" + want[i+1+j+1:]
+	}
+	want = strings.TrimSuffix(want, "@C20")
+	var od *Obligation
+	for _, x := range u.obls {
+		if x.Name == want {
+			od = x
+		}
+	}
+	if od == nil || od.Cover {
+		return false, map[string]interface{}{"note": "obligation not found in the defined-theory rerun"}
+	}
+	assume := append(append([]*Term{}, od.Axioms...), od.Assume...)
+	// bound the storage so that the state can be built
+	for _, k := range sortedKeysT(u.initMem) {
+		if strings.HasPrefix(k, "brk:") || strings.HasPrefix(k, "sbrk:") {
+			assume = append(assume, Le(u.initMem[k], IntLit(48)))
+		}
+		if strings.HasPrefix(k, "obrk:") {
+			assume = append(assume, Le(u.initMem[k], IntLit(6)))
+		}
+	}
+	script := Script(od.Ctx, "ALL", assume, od.Goal, true)
+	// terms to evaluate
+	type want_ struct {
+		key string
+		t   *Term
+	}
+	var wants []want_
+	add := func(key string, t *Term) { wants = append(wants, want_{key, t}) }
+	var inputs []map[string]interface{}
+	var paramOrder []string
+	paramOrder = append(paramOrder, ct.Params...)
+	for _, pn := range paramOrder {
+		v, ok := u.entry[pn]
+		if !ok {
+			continue
+		}
+		s.collectWants(u, pn, v, add)
+	}
+	var terms []*Term
+	for _, w := range wants {
+		terms = append(terms, w.t)
+	}
+	vals, status := evalTerms(script, terms, 20)
+	det := map[string]interface{}{"model_status": status, "theory": "defined (arithmetic definitions), storage bounded to 48 cells per element type"}
+	if vals == nil {
+		return false, det
+	}
+	mv := map[string]string{}
+	for _, w := range wants {
+		mv[w.key] = vals[w.t.String()]
+	}
+	det["model_values"] = mv
+	src, testName, err := s.genReplayTest(u, o, mv)
+	_ = inputs
+	if err != nil {
+		det["note"] = "no replay harness for this function: " + err.Error()
+		return false, det
+	}
+	det["test_source"] = src
+	det["test_name"] = testName
+	out, _ := runOverlayTest(src, testName)
+	det["test_output"] = truncate(out, 4000)
+	if strings.Contains(out, "REPLAY-CONFIRMED") {
+		return true, det
+	}
+	// runtime assertion checking of the contract on this run
+	memSizes := map[string]int64{}
+	for _, l := range strings.Split(src, "\n") {
+		var name, typ string
+		var n int64
+		if _, err := fmt.Sscanf(strings.TrimSpace(l), "mem_%s := make([]%s %d)", &name, &typ, &n); err == nil {
+			memSizes[name] = n
+		}
+	}
+	for _, m := range regexp.MustCompile(`mem_(\w+) := make\(\[\]\w+, (\d+)\)`).FindAllStringSubmatch(src, -1) {
+		var n int64
+		fmt.Sscan(m[2], &n)
+		memSizes[m[1]] = n
+	}
+	violated, why := s.racCheck(prop, u, o, mv, memSizes, out)
+	if why != "" {
+		det["runtime_assertion_checking"] = why
+	}
+	if len(violated) > 0 {
+		det["violated_clauses_on_real_code"] = violated
+		return true, det
+	}
+	return false, det
+}
+
+// collectWants lists the model terms that describe parameter pn.
+func (s *Session) collectWants(u *Unit, pn string, v Value, add func(string, *Term)) {
+	st := u.old
+	switch v.K {
+	case KInt, KBool, KNum:
+		if v.Term != nil {
+			add(pn, v.Term)
+		}
+	case KBuf:
+		add(pn+".id", v.Term)
+		add(pn+".ch", u.bufCh(st, v))
+		d := u.bufData(st, v)
+		add(pn+".ptr", d.Ptr)
+		add(pn+".len", d.Len)
+		add(pn+".cap", d.Cap)
+		add(pn+".brk", u.brk(st, v.Elem))
+	case KSlice:
+		add(pn+".ptr", v.Ptr)
+		add(pn+".len", v.Len)
+		add(pn+".cap", v.Cap)
+		if in, ok := v.Elem.(*types.Slice); ok {
+			add(pn+".brk", u.brk(st, in.Elem()))
+			for c := 0; c < 8; c++ {
+				is := u.innerSlice(st, v, IntLit(int64(c)))
+				add(fmt.Sprintf("%s[%d].ptr", pn, c), is.Ptr)
+				add(fmt.Sprintf("%s[%d].len", pn, c), is.Len)
+				add(fmt.Sprintf("%s[%d].cap", pn, c), is.Cap)
+			}
+		} else {
+			add(pn+".brk", u.brk(st, v.Elem))
+		}
+	case KStruct:
+		var names []string
+		for k := range v.Fields {
+			names = append(names, k)
+		}
+		sort.Strings(names)
+		for _, k := range names {
+			s.collectWants(u, pn+"."+k, v.Fields[k], add)
+		}
+	}
+}
+
+func mvInt(mv map[string]string, key string) (int64, bool) {
+	n, ok := parseSMTInt(mv[key])
+	if !ok || !n.IsInt64() {
+		return 0, false
+	}
+	return n.Int64(), true
+}
+
+// goLitNum renders a model value of numeric Go type t as a Go expression.
+func (u *Unit) goLitNum(t types.Type, v string) (string, bool) {
+	tn := goTypeName(t)
+	if isFloatT(t) {
+		bits, w, ok := fpBits(v)
+		if !ok {
+			return "", false
+		}
+		if w == 32 {
+			return fmt.Sprintf("%s(math.Float32frombits(0x%x))", tn, bits), true
+		}
+		return fmt.Sprintf("%s(math.Float64frombits(0x%x))", tn, bits), true
+	}
+	if n, w, ok := parseSMTBV(v); ok {
+		if !isUnsignedT(t) {
+			n = toSigned(n, w)
+		}
+		return fmt.Sprintf("%s(%s)", tn, n.String()), true
+	}
+	if n, ok := parseSMTInt(v); ok {
+		return fmt.Sprintf("%s(%s)", tn, n.String()), true
+	}
+	return "", false
+}
+
+// genReplayTest generates the in-package test for a function-level obligation.
+func (s *Session) genReplayTest(u *Unit, o *Obligation, mv map[string]string) (string, string, error) {
+	fi := u.fn
+	var sb strings.Builder
+	testName := "TestVerifReplay"
+	sb.WriteString("package signal\n\nimport (\n\t\"encoding/json\"\n\t\"fmt\"\n\t\"math\"\n\t\"reflect\"\n\t\"testing\"\n\t\"unsafe\"\n)\n\nvar _ = math.Pi\nvar _ = reflect.DeepEqual\nvar _ = unsafe.Pointer(nil)\nvar _ = json.Marshal\n\n")
+	sb.WriteString(replayHelpers)
+	// named element types
+	seenNamed := map[string]bool{}
+	for _, a := range u.inst.Args {
+		if n, ok := a.(*types.Named); ok && !seenNamed[n.Obj().Name()] {
+			seenNamed[n.Obj().Name()] = true
+			fmt.Fprintf(&sb, "type %s %s\n\n", n.Obj().Name(), n.Underlying().String())
+		}
+	}
+	sb.WriteString("func " + testName + "(t *testing.T) {\n")
+	// backing arrays per element type
+	mems := map[string]int64{} // elem type name -> size
+	noteMem := func(elem types.Type, brkKey string, need int64) {
+		k := goTypeName(elem)
+		b, _ := mvInt(mv, brkKey)
+		if need > b {
+			b = need
+		}
+		if b > mems[k] {
+			mems[k] = b
+		}
+		if _, ok := mems[k]; !ok {
+			mems[k] = b
+		}
+	}
+	type bufP struct {
+		name            string
+		elem            types.Type
+		ch, p, l, c     int64
+	}
+	var bufs []bufP
+	var args []string
+	var pre strings.Builder
+	recvExpr := ""
+	params := u.ct.Params
+	hasRecv := fi.Sig.Recv() != nil
+	for i, pn := range params {
+		v, ok := u.entry[pn]
+		if !ok {
+			return "", "", fmt.Errorf("parameter %s not bound", pn)
+		}
+		goName := "p_" + sanitize(pn)
+		switch v.K {
+		case KBuf:
+			ch, ok1 := mvInt(mv, pn+".ch")
+			p, ok2 := mvInt(mv, pn+".ptr")
+			l, ok3 := mvInt(mv, pn+".len")
+			c, ok4 := mvInt(mv, pn+".cap")
+			if !(ok1 && ok2 && ok3 && ok4) || p < 0 || l < 0 || c < l || p+c > 4096 {
+				return "", "", fmt.Errorf("model shape of %s not constructible", pn)
+			}
+			noteMem(v.Elem, pn+".brk", p+c)
+			bufs = append(bufs, bufP{goName, v.Elem, ch, p, l, c})
+			// aliasing: same object id as an earlier parameter
+			same := ""
+			for j := 0; j < i; j++ {
+				if pv, ok := u.entry[params[j]]; ok && pv.K == KBuf && types.Identical(pv.Elem, v.Elem) && mv[params[j]+".id"] == mv[pn+".id"] {
+					same = "p_" + sanitize(params[j])
+				}
+			}
+			if same != "" {
+				fmt.Fprintf(&pre, "\t%s := %s\n", goName, same)
+			} else {
+				tn := goTypeName(v.Elem)
+				fmt.Fprintf(&pre, "\t%s := &Buffer[%s]{channels: channels(%d), data: mem_%s[%d:%d:%d], bitDepth: bitDepth(%d)}\n", goName, tn, ch, tn, p, p+l, p+c, u.widthOf(v.Elem))
+			}
+		case KSlice:
+			if in, ok := v.Elem.(*types.Slice); ok {
+				n, ok1 := mvInt(mv, pn+".len")
+				if !ok1 || n < 0 || n > 8 {
+					return "", "", fmt.Errorf("outer slice %s too long for replay", pn)
+				}
+				tn := goTypeName(in.Elem())
+				fmt.Fprintf(&pre, "\t%s := make([][]%s, %d)\n", goName, tn, n)
+				for c := int64(0); c < n; c++ {
+					p, ok2 := mvInt(mv, fmt.Sprintf("%s[%d].ptr", pn, c))
+					l, ok3 := mvInt(mv, fmt.Sprintf("%s[%d].len", pn, c))
+					cp, ok4 := mvInt(mv, fmt.Sprintf("%s[%d].cap", pn, c))
+					if !(ok2 && ok3 && ok4) || p < 0 || l < 0 || cp < l || p+cp > 4096 {
+						return "", "", fmt.Errorf("inner slice of %s not constructible", pn)
+					}
+					noteMem(in.Elem(), pn+".brk", p+cp)
+					if cp == 0 {
+						continue // nil inner slice
+					}
+					fmt.Fprintf(&pre, "\t%s[%d] = mem_%s[%d:%d:%d]\n", goName, c, tn, p, p+l, p+cp)
+				}
+			} else {
+				p, ok2 := mvInt(mv, pn+".ptr")
+				l, ok3 := mvInt(mv, pn+".len")
+				c, ok4 := mvInt(mv, pn+".cap")
+				if !(ok2 && ok3 && ok4) || p < 0 || l < 0 || c < l || p+c > 4096 {
+					return "", "", fmt.Errorf("slice %s not constructible", pn)
+				}
+				noteMem(v.Elem, pn+".brk", p+c)
+				tn := goTypeName(v.Elem)
+				fmt.Fprintf(&pre, "\t%s := mem_%s[%d:%d:%d]\n", goName, tn, p, p+l, p+c)
+			}
+		case KInt:
+			n, ok := parseSMTInt(mv[pn])
+			if !ok {
+				return "", "", fmt.Errorf("no model value for %s", pn)
+			}
+			tn := "int"
+			if v.T != nil {
+				tn = types.TypeString(v.T, func(p *types.Package) string {
+					if p == s.prog.Pkg.Types {
+						return ""
+					}
+					return p.Name()
+				})
+			}
+			fmt.Fprintf(&pre, "\t%s := %s(%s)\n", goName, tn, n.String())
+		case KNum:
+			lit, ok := u.goLitNum(v.T, mv[pn])
+			if !ok {
+				// abstract sample value: any concrete value will do
+				lit = goTypeName(v.T) + "(7)"
+			}
+			fmt.Fprintf(&pre, "\t%s := %s\n", goName, lit)
+		case KString:
+			fmt.Fprintf(&pre, "\t%s := \"replay\"\n", goName)
+		case KStruct:
+			switch namedName(v.T) {
+			case "Allocator":
+				c, _ := mvInt(mv, pn+".Channels")
+				l, _ := mvInt(mv, pn+".Length")
+				k, _ := mvInt(mv, pn+".Capacity")
+				if c*k > 1<<20 || c < 0 || k < 0 || l < 0 {
+					return "", "", fmt.Errorf("allocator too large for replay")
+				}
+				fmt.Fprintf(&pre, "\t%s := Allocator{Channels: %d, Length: %d, Capacity: %d}\n", goName, c, l, k)
+			case "C":
+				bv := v.Fields["Buffer"]
+				ch, ok1 := mvInt(mv, pn+".Buffer.ch")
+				p, ok2 := mvInt(mv, pn+".Buffer.ptr")
+				l, ok3 := mvInt(mv, pn+".Buffer.len")
+				c, ok4 := mvInt(mv, pn+".Buffer.cap")
+				cn, ok5 := mvInt(mv, pn+".channel")
+				if !(ok1 && ok2 && ok3 && ok4 && ok5) || p < 0 || l < 0 || c < l || p+c > 4096 {
+					return "", "", fmt.Errorf("channel view %s not constructible", pn)
+				}
+				noteMem(bv.Elem, pn+".Buffer.brk", p+c)
+				tn := goTypeName(bv.Elem)
+				bufs = append(bufs, bufP{goName + ".Buffer", bv.Elem, ch, p, l, c})
+				fmt.Fprintf(&pre, "\t%s := C[%s]{Buffer: &Buffer[%s]{channels: channels(%d), data: mem_%s[%d:%d:%d], bitDepth: bitDepth(%d)}, channel: %d}\n",
+					goName, tn, tn, ch, tn, p, p+l, p+c, u.widthOf(bv.Elem), cn)
+			default:
+				return "", "", fmt.Errorf("parameter %s of type %s is not replayable", pn, v.T)
+			}
+		default:
+			return "", "", fmt.Errorf("parameter %s (kind %d) is not replayable", pn, v.K)
+		}
+		if hasRecv && i == 0 {
+			recvExpr = goName
+		} else {
+			args = append(args, goName)
+		}
+	}
+	if fi.Sig.Results().Len() > 0 {
+		if e, ok := bufElem(u.conc(fi.Sig.Results().At(0).Type())); ok {
+			if _, have := mems[goTypeName(e)]; !have {
+				mems[goTypeName(e)] = 1
+			}
+		}
+	}
+	// declare backing arrays with recognisable contents
+	var memNames []string
+	for k := range mems {
+		memNames = append(memNames, k)
+	}
+	sort.Strings(memNames)
+	for _, k := range memNames {
+		n := mems[k]
+		if n < 1 {
+			n = 1
+		}
+		fmt.Fprintf(&sb, "\tmem_%s := make([]%s, %d)\n\tfor i := range mem_%s {\n\t\tmem_%s[i] = %s(i%%100 + 1)\n\t}\n", k, k, n, k, k, k)
+	}
+	sb.WriteString(pre.String())
+	// snapshot
+	for _, k := range memNames {
+		fmt.Fprintf(&sb, "\tsnap_%s := append([]%s(nil), mem_%s...)\n", k, k, k)
+	}
+	for _, b := range bufs {
+		fmt.Fprintf(&sb, "\thdr_%s := fmt.Sprint(%s.channels, len(%s.data), cap(%s.data), %s.bitDepth)\n", sanitize(b.name), b.name, b.name, b.name, b.name)
+	}
+	// call
+	callee := fi.Decl.Name.Name
+	targs := ""
+	if fi.Sig.Recv() == nil && len(u.inst.Args) > 0 {
+		var ts []string
+		for _, a := range u.inst.Args {
+			ts = append(ts, goTypeName(a))
+		}
+		targs = "[" + strings.Join(ts, ", ") + "]"
+	}
+	call := callee + targs + "(" + strings.Join(args, ", ") + ")"
+	if recvExpr != "" {
+		call = recvExpr + "." + callee + "(" + strings.Join(args, ", ") + ")"
+	}
+	sb.WriteString("\tstate := map[string]interface{}{}\n\tpanicked, msg := false, \"\"\n\tfunc() {\n\t\tdefer func() {\n\t\t\tif r := recover(); r != nil {\n\t\t\t\tpanicked, msg = true, fmt.Sprint(r)\n\t\t\t}\n\t\t}()\n")
+	if fi.Sig.Results().Len() > 0 {
+		sb.WriteString("\t\tres := " + call + "\n\t\tfmt.Printf(\"REPLAY-RESULT %v\\n\", res)\n")
+		rt := u.conc(fi.Sig.Results().At(0).Type())
+		if e, ok := bufElem(rt); ok {
+			tn := goTypeName(e)
+			fmt.Fprintf(&sb, "\t\tstate[\"result\"] = verifDumpBuf(res, mem_%s)\n", tn)
+		} else if namedName(rt) == "C" {
+			sb.WriteString("\t\tstate[\"result\"] = map[string]interface{}{\"channel\": res.channel}\n")
+		} else {
+			sb.WriteString("\t\tstate[\"result\"] = fmt.Sprint(res)\n")
+		}
+	} else {
+		sb.WriteString("\t\t" + call + "\n")
+	}
+	sb.WriteString("\t}()\n\tfmt.Printf(\"REPLAY-PANIC %v %q\\n\", panicked, msg)\n")
+	sb.WriteString("\tstate[\"panicked\"] = panicked\n")
+	for _, b := range bufs {
+		fmt.Fprintf(&sb, "\tstate[%q] = verifDumpBuf(%s, mem_%s)\n", b.name, b.name, goTypeName(b.elem))
+	}
+	for _, k := range memNames {
+		fmt.Fprintf(&sb, "\tstate[\"mem_%s\"] = verifDumpMem(mem_%s)\n", k, k)
+	}
+	sb.WriteString("\tif js, err := json.Marshal(state); err == nil {\n\t\tfmt.Printf(\"REPLAY-STATE %s\\n\", js)\n\t}\n")
+	// modified?
+	sb.WriteString("\tmodified := false\n")
+	for _, k := range memNames {
+		fmt.Fprintf(&sb, "\tif !reflect.DeepEqual(snap_%s, mem_%s) {\n\t\tmodified = true\n\t}\n", k, k)
+	}
+	for _, b := range bufs {
+		fmt.Fprintf(&sb, "\tif hdr_%s != fmt.Sprint(%s.channels, len(%s.data), cap(%s.data), %s.bitDepth) {\n\t\tmodified = true\n\t}\n", sanitize(b.name), b.name, b.name, b.name, b.name)
+	}
+	sb.WriteString("\tfmt.Printf(\"REPLAY-MODIFIED %v\\n\", modified)\n")
+	// verdict by obligation kind
+	lbl := labelOf(o.Name)
+	switch {
+	case o.Kind == "no-panic" || o.Kind == "pre@call":
+		sb.WriteString("\tif panicked {\n\t\tfmt.Println(\"REPLAY-CONFIRMED: the contract demands no panic for this input, the real code panicked:\", msg)\n\t}\n")
+	case o.Kind == "panics-iff" && strings.Contains(lbl, "must-panic"):
+		sb.WriteString("\tif !panicked {\n\t\tfmt.Println(\"REPLAY-CONFIRMED: the contract demands a panic for this input, the real code returned normally\")\n\t}\n")
+	case o.Kind == "panics-iff" && strings.Contains(lbl, "only-if"):
+		sb.WriteString("\tif panicked {\n\t\tfmt.Println(\"REPLAY-CONFIRMED: the real code panicked on an input for which the contract allows no panic:\", msg)\n\t}\n")
+	case o.Kind == "panics-iff" && strings.Contains(lbl, "unmodified"):
+		sb.WriteString("\tif panicked && modified {\n\t\tfmt.Println(\"REPLAY-CONFIRMED: the real code modified state before panicking\")\n\t}\n")
+	case o.Kind == "writes-nothing" || o.Kind == "writes":
+		sb.WriteString("\tif modified {\n\t\tfmt.Println(\"REPLAY-CONFIRMED: a read-only operation modified its operands\")\n\t}\n")
+	default:
+		sb.WriteString("\tfmt.Println(\"REPLAY-INCONCLUSIVE: no executable oracle for this obligation kind; see REPLAY-RESULT / REPLAY-MODIFIED\")\n")
+	}
+	sb.WriteString("}\n")
+	return sb.String(), testName, nil
+}
+
+func mathFloat64bits(f float64) uint64 { return mathF64bits(f) }
+func mathFloat32bits(f float32) uint32 { return mathF32bits(f) }
+
+// replayHelpers: support code of the generated replay test (dumps the post-state).
+const replayHelpers = `
+type verifBufDump struct {
+	Nil   bool     ` + "`json:\"nil\"`" + `
+	Ch    int      ` + "`json:\"ch\"`" + `
+	Where string   ` + "`json:\"where\"`" + `
+	Off   int      ` + "`json:\"off\"`" + `
+	Len   int      ` + "`json:\"len\"`" + `
+	Cap   int      ` + "`json:\"cap\"`" + `
+	BD    int      ` + "`json:\"bd\"`" + `
+	Ext   []string ` + "`json:\"ext\"`" + `
+}
+
+func verifSample[T SignalTypes](v T) string {
+	switch x := any(v).(type) {
+	case float32:
+		return fmt.Sprintf("f%08x", math.Float32bits(x))
+	case float64:
+		return fmt.Sprintf("f%016x", math.Float64bits(x))
+	}
+	rv := reflect.ValueOf(v)
+	switch rv.Kind() {
+	case reflect.Float32:
+		return fmt.Sprintf("f%08x", math.Float32bits(float32(rv.Float())))
+	case reflect.Float64:
+		return fmt.Sprintf("f%016x", math.Float64bits(rv.Float()))
+	case reflect.Uint, reflect.Uint8, reflect.Uint16, reflect.Uint32, reflect.Uint64, reflect.Uintptr:
+		return fmt.Sprint(rv.Uint())
+	}
+	return fmt.Sprint(rv.Int())
+}
+
+func verifDumpMem[T SignalTypes](m []T) []string {
+	out := make([]string, len(m))
+	for i, v := range m {
+		out[i] = verifSample(v)
+	}
+	return out
+}
+
+// verifDumpBuf describes a buffer header; storage outside the test's backing
+// array (a growing append, a fresh allocation) is dumped in full.
+func verifDumpBuf[T SignalTypes](b *Buffer[T], mem []T) verifBufDump {
+	if b == nil {
+		return verifBufDump{Nil: true}
+	}
+	d := verifBufDump{Ch: int(b.channels), Len: len(b.data), Cap: cap(b.data), BD: int(b.bitDepth), Where: "mem"}
+	if cap(b.data) == 0 {
+		return d
+	}
+	var z T
+	sz := unsafe.Sizeof(z)
+	p := uintptr(unsafe.Pointer(unsafe.SliceData(b.data)))
+	base := uintptr(unsafe.Pointer(unsafe.SliceData(mem)))
+	if len(mem) > 0 && p >= base && p < base+uintptr(len(mem))*sz {
+		d.Off = int((p - base) / sz)
+		return d
+	}
+	d.Where = "ext"
+	full := b.data[:cap(b.data)]
+	d.Ext = verifDumpMem(full)
+	return d
+}
+
+`
